@@ -139,6 +139,10 @@ func GetExtendedSpatialIdsWithinRadiusOfLine(startPoint *object.Point, endPoint 
 
 			// Put idConvex into measure's ConvexHulls[1]
 			measure1.ConvexHulls[1] = idConvex
+			// the measure keeps the search direction of its previous run as the starting point of the next;
+			// start every voxel from the same state, so that its distance does not depend on which voxel was
+			// measured before it (idsAroundLine has no defined order)
+			measure1.Direction = mgl64.Vec3{}
 
 			// Measure the distance between the line (ConvexHull[0]) and the
 			// SpatialIDs vertex vectors (ConvexHull[1])
